@@ -17,7 +17,7 @@ func init() {
 	register(&Property{
 		ID:    "C10",
 		Level: "other",
-		Explain: "Absence of panics, bounded recursion and linear time need value reasoning and are not decided. Two clauses are structural and decided: (R10.1) the byte/string convenience entry points return, on error, their own parameter, and that parameter's backing array was never handed to a minifier through a Bytes()-exposing reader " +
+		Explain: "Absence of panics, bounded recursion and linear time need value reasoning and are not decided. (R10.4) a lower-bound dataflow reports indices that the function's own arithmetic drives below zero from a range key or search result; (R10.5) a remembered position is reassigned after the element it designates was deleted. Further clauses are structural and decided: (R10.1) the byte/string convenience entry points return, on error, their own parameter, and that parameter's backing array was never handed to a minifier through a Bytes()-exposing reader " +
 			"(parse.NewInput adopts that array and every minifier rewrites its input in place) — SSA provenance of the reader argument; (R10.2) each documented resource limit is in force: the limit comparison exists, its exceeded outcome leaves the function without doing work, and the guarded (recursive / quadratic) region is dominated by the within-limit outcome; the CSS nesting counter is incremented before and decremented after the recursive region on all paths.",
 		Run: runC10,
 	})
@@ -30,6 +30,15 @@ func init() {
 	mutant(&Mutant{Name: "c10-data-uri-guard-off-by-one", Property: "C10", File: "css/css.go",
 		Old: "if 4 < len(uri) && parse.EqualFold(uri[:5]", New: "if 3 < len(uri) && parse.EqualFold(uri[:5]",
 		Rule: "R10.3", Construct: "uri[:5]"})
+	mutant(&Mutant{Name: "c10-font-comma-index-from-zero", Property: "C10", File: "css/css.go",
+		Old: "\t\t\tfor j, value := range values[2:] {\n\t\t\t\tif value.TokenType == css.CommaToken {\n\t\t\t\t\ti = 2 + j - 1", New: "\t\t\tfor j, value := range values {\n\t\t\t\tif value.TokenType == css.CommaToken {\n\t\t\t\t\ti = j - 1",
+		Rule: "R10.4", Construct: "minifyProperty/indices"})
+	mutant(&Mutant{Name: "c10-index-search-result-unchecked", Property: "C10", File: "svg/svg.go",
+		Old: "if colon := bytes.IndexByte(t.Text, ':'); colon != -1 {", New: "if colon := bytes.IndexByte(t.Text, ':'); colon != 0 {",
+		Rule: "R10.4", Construct: "indices stay non-negative"})
+	mutant(&Mutant{Name: "c10-padding-box-position-stale", Property: "C10", File: "css/css.go",
+		Old: "\t\t\t\t\t\t\tiPaddingBox = -1 // both are removed, the position no longer refers to padding-box\n", New: "",
+		Rule: "R10.5", Construct: "iPaddingBox after the deletion"})
 	mutant(&Mutant{Name: "c10-css-level-not-decremented", Property: "C10", File: "css/css.go",
 		Old: "\tc.tokensLevel--\n\treturn values\n}", New: "\treturn values\n}",
 		Rule: "R10.2", Construct: "minifyTokens"})
@@ -48,6 +57,8 @@ func runC10(c *Ctx) {
 	c.r101()
 	c.r102()
 	c.r103()
+	c.r104()
+	c.r105()
 }
 
 // lenLowerBound derives, from an outcome of a condition, a lower bound of len(<expr>) (by expression text).
